@@ -101,7 +101,8 @@ class _Poisson:
 
 class _Chi2:
     @staticmethod
-    def cdf(x, k):
+    def cdf(x, k=None, df=None):
+        k = df if k is None else k
         if not symx.is_sym(x) and not symx.is_sym(k):
             from scipy.stats import chi2 as _c
 
@@ -131,6 +132,15 @@ def install():
             mod.numpy = symnp
         mod.float = symfloat
         mod.int = symint
+        # scipy.stats distribution objects used directly by a module (FFI): closed-form / uninterpreted stand-ins
+        try:
+            import scipy.stats as _st
+
+            for _nm, _stub in (("chi2", _Chi2), ("norm", _Norm), ("poisson", _Poisson)):
+                if getattr(mod, _nm, None) is getattr(_st, _nm):
+                    setattr(mod, _nm, _stub)
+        except ImportError:
+            pass
         if hasattr(mod, "check_numerical_range") and name != "kafe2.fit.util":
             mod.check_numerical_range = _nocheck
         if hasattr(mod, "print_dict_as_table") and name != "kafe2.tools":
